@@ -148,7 +148,7 @@ PROPS["C07"] = {
     "modelled": WHOLE_FILE_MODELLED,
     "level_text": "Lean theorems: a clean pass - and a complete clean run over any inputs - never invokes a command (proved via an invariant that needs no hypothesis on `run`); its line loop cannot fail whatever directive errors the source contains; it creates no file; it removes the output; whenever build's grouping of the lines into directive blocks succeeds, clean sees exactly the same blocks (escaped directive text is never a directive for clean), build writes and clean removes the same temp target, every other block is a no-op for clean; a temp target with a txtpp name is refused; untouched paths keep their bytes. On the implementation: build->clean restores the exact tree snapshot, clean alone, clean twice, partially removed generated files, erroneous sources, write-escaped temp directives naming existing files.",
     "design_ref": '5 C07',
-    "level_note": "build_then_clean_restores is checked on the implementation (snapshot equality), not yet a Lean theorem. Known finding F5 (clean does not follow dependencies) is recognised by signature: every leftover path is generated by a dependency outside clean's resolved inputs.",
+    "level_note": "build_then_clean_restores is proved per source (build_then_clean_restores_one_source: a successful build pass followed by a clean pass of the same source restores every path of a tree in which the output and temp targets did not exist; clean_pass_removes_output_and_temp_targets; clean_pass_changes_nothing_else) and checked for whole projects on the implementation (snapshot equality). Known finding F5 (clean does not follow dependencies) is recognised by signature: every leftover path is generated by a dependency outside clean's resolved inputs.",
     "technique": 'Lean 4 proof (world invariant of a clean pass, totality of the clean machine) + snapshot oracle + differential correspondence',
     "assumptions": ['the same inputs are given to build and clean'],
 }
